@@ -96,7 +96,7 @@ func c18MemberRunCase(in *c18MemberInput) []c18MemberObs {
 	nodes := NewNodes(lmd, addrs, "http://127.0.0.1:8901")
 	lmd.nodeAccessor = nodes
 	nodes.ID = in.OwnID
-	nodes.heartbeatTimeout = 1
+	nodes.heartbeatTimeout = 3 // seconds: generous, so that a loaded machine does not turn a pong into a missed heartbeat
 	ctx := context.Background()
 
 	obs := make([]c18MemberObs, 0, len(in.Hist))
@@ -247,7 +247,7 @@ func c18MemberMain(args []string) int {
 
 	// cases mostly wait (heartbeat timeout of failing pings): run them concurrently
 	results := make([][]c18MemberObs, len(inputs))
-	sem := make(chan struct{}, 16)
+	sem := make(chan struct{}, 32)
 	wg := sync.WaitGroup{}
 	for i := range inputs {
 		wg.Add(1)
